@@ -3,6 +3,27 @@
 import json, subprocess, sys
 
 CHECKS = {
+    "C01": (
+        "exploration",
+        "Seeded search over generated multi-instance pre-states, honest data-driven programs, candidate sets and K arrival schedules (permutations, duplicate deliveries, a second interleaved transaction, both scheduler kinds, rule registration orders, batches on both sides of the 1024 threshold) on the real Engine; K-way bit equality of snapshot/receipt/patch/post-state plus an independent reference tick model (canonical order, greedy independent set, interpretation against the pre-state, canonical merge and application). Evidence, not proof.",
+        "Trusts the harness's reference model and honest-footprint derivation (written from the specs); programs are generated data run by one interpreter rule.",
+        "deterministic simulation: seeded arrival schedules and duplicate deliveries, reference-model refinement + K-way equality",
+        "DESIGN.md §5 C01",
+    ),
+    "C02": (
+        "exploration",
+        "Real worker threads of the parallel executors run under a scripted claim controller (hook H1): a seeded tape decides which parked worker claims each (instance, shard) work unit, for 1..8 (thorough: up to 32) workers and all five execution policies; every schedule must commit bit-identically to the 1-worker run and to the reference model. Seeded search over assignments (drawn without replacement when the space is tiny); not exhaustive.",
+        "Assumes workers share only the atomic claim counter (crate forbids unsafe), so every observable interleaving is a claim order; the controller reports baton overlap as a harness error.",
+        "deterministic simulation: controlled thread scheduling (seeded claim tapes over real threads), equality with serial baseline",
+        "DESIGN.md §5 C02",
+    ),
+    "C14": (
+        "exploration",
+        "A generated honest tick plus one violator program (omits exactly one read/write access it performs, writes another instance, emits an instance op, optionally panics) placed at seeded canonical positions, work units and workers (claim tapes); the commit must unwind with the matching violation and leave the pre-state untouched; an unflagged omitted write is a violation exactly when the guarded location's observable content changed (attribution completeness). Seeded search; evidence, not proof.",
+        "Requires enforcement compiled in (simulator builds warp-core with debug assertions); trusts the harness's conservative honest-footprint derivation and reference applier.",
+        "deterministic simulation: fault injection of dishonest programs under seeded worker schedules, pre-state restoration oracle",
+        "DESIGN.md §5 C14",
+    ),
     # id: (level category, level text, level note, technique, design ref)
     "C18": (
         "exploration",
